@@ -8,6 +8,7 @@ import (
 
 func init() {
 	vRegister("HarnessC16_pair", HarnessC16_pair)
+	vRegister("HarnessC16_lists", HarnessC16_lists)
 	vRegister("HarnessC16_self", HarnessC16_self)
 	vRegister("HarnessC16_three", HarnessC16_three)
 	vRegister("HarnessC16_witness", HarnessC16_witness)
@@ -272,9 +273,13 @@ func c16Check(inputs []any, excludeKnown bool) {
 	for i, in := range inputs {
 		vObserve("input"+string(rune('0'+i)), in)
 	}
+	// inside the region of known finding C16-R3 only the argument-order
+	// assertion is withheld; everything else (model, commonality, maximality,
+	// the bkld round trip per input) is asserted there as well
+	inR3 := false
 	if r := c16ListRegion(inputs); r != "" && excludeKnown {
 		vCover("known." + r)
-		vAssume(false)
+		inR3 = true
 	}
 	want := specFold(inputs)
 	base, err := c16Fold(inputs)
@@ -289,7 +294,9 @@ func c16Check(inputs []any, excludeKnown bool) {
 		rev = append(rev, inputs[i])
 	}
 	base2, err2 := c16Fold(rev)
-	vAssert("C16.order", err2 == nil && vEq(base2, base))
+	if !inR3 {
+		vAssert("C16.order", err2 == nil && vEq(base2, base))
+	}
 	// migrate workflow: base + bkld(base, input) evaluates to input; pairs
 	// (base, input) inside a C15 known-finding region of bkld are skipped
 	for i, in := range inputs {
@@ -327,6 +334,25 @@ func HarnessC16_pair() {
 			m["b"] = ndScalarNN()
 		}
 		return m
+	}
+	c16Check([]any{mk(), mk()}, true)
+}
+
+// HarnessC16_lists: two inputs holding a list of scalars under the same key
+// (<= 2 entries each, thorough 3): every pattern of shared, repeated and
+// reordered entries.
+func HarnessC16_lists() {
+	L := 2
+	if vTier() > 0 {
+		L = 3
+	}
+	mk := func() map[string]any {
+		n := ndChoice(L + 1)
+		l := []any{}
+		for i := 0; i < n; i++ {
+			l = append(l, ndScalarNN())
+		}
+		return map[string]any{"l": l, "k": "s0"}
 	}
 	c16Check([]any{mk(), mk()}, true)
 }
